@@ -567,6 +567,7 @@ func (cb *chunkBuilder) reset() {
 
 func (cb *chunkBuilder) add(cols map[string]*btapb.ColumnFamily, r *btpb.Row) bool {
 	scrubRow(r, cols)
+	start := len(cb.chunks)
 	newRow := true
 	for _, fam := range r.Families {
 		newFam := true
@@ -602,9 +603,11 @@ func (cb *chunkBuilder) add(cols map[string]*btapb.ColumnFamily, r *btpb.Row) bo
 	}
 	// We can't have a cell with just COMMIT set, which would imply a new empty cell.
 	// So modify the last cell to have the COMMIT flag set.
-	if len(cb.chunks) > 0 {
-		cb.chunks[len(cb.chunks)-1].RowStatus = &btpb.ReadRowsResponse_CellChunk_CommitRow{CommitRow: true}
+	if len(cb.chunks) == start {
+		// The row produced no output, so it must not count against the row limit.
+		return false
 	}
+	cb.chunks[len(cb.chunks)-1].RowStatus = &btpb.ReadRowsResponse_CellChunk_CommitRow{CommitRow: true}
 	return true
 }
 
